@@ -22,7 +22,8 @@ type InitM struct {
 
 // DBody / DItem describe generated source text.
 type DBody struct {
-	Items []DItem `json:"items,omitempty"`
+	Items []DItem  `json:"items,omitempty"`
+	Tail  []string `json:"tail,omitempty"` // comment lines after the last item (before the closing brace)
 }
 
 type DItem struct {
@@ -43,6 +44,8 @@ type DItem struct {
 	OneLine  bool     `json:"one_line,omitempty"`
 	PreLabel string   `json:"pre_label,omitempty"` // comment between type and first label / brace
 	OpenCmt  string   `json:"open_cmt,omitempty"`  // comment after the opening brace, on its line
+	EqCmt    string   `json:"eq_cmt,omitempty"`    // inline comment between "=" and the expression
+	LabelCmt string   `json:"label_cmt,omitempty"` // inline comment between labels / before the brace
 }
 
 type DLabel struct {
